@@ -496,6 +496,11 @@ impl<TStdlib: Stdlib, TStdIn: Input, TStdOut: Printer, TLpt1: Printer>
                 self.take_last_error_address().with_err_at(&pos)?;
                 ctx.opt_next_index = Some(resume_label.address());
                 self.context.pop();
+                // the label lives at the module level: the procedures that were
+                // in progress when the error occurred are left
+                self.context.unwind_to_global();
+                self.stacktrace.clear();
+                self.return_address_stack.clear();
             }
             Instruction::Throw(interpreter_error) => {
                 return Err(interpreter_error.clone()).with_err_at(&pos);
